@@ -6,7 +6,7 @@
 //!   1 mode doc         a document (every key / scalar that def.rs parses is a raw string): YAML text is
 //!                      generated from it, `serde_yml::from_str::<Def>`, `transform`, and for odd `mode`
 //!                      `Sim::new(()).nodes_from_ndl(&def, registry)` followed by a read-out of
-//!                      `Sim::nodes`, every node's software symbol, gates, and both connection slots of
+//!                      `Sim::nodes`, for every node the registered type whose factory produced its software, gates, and both connection slots of
 //!                      every gate with `Channel::metrics`.
 //! Every call into the crates is wrapped in `catch_unwind`; a panic is reported as `9 site`
 //! (the model never produces 9 for parsing / elaboration of the current code).
@@ -411,20 +411,33 @@ fn candidates(def: &Def) -> BTreeSet<u64> {
 }
 
 // ---------------------------------------------------------------- build
-struct Triv {
-    symbol: String,
-}
-impl Module for Triv {}
-impl RegistryCreatable for Triv {
-    fn create(_path: &ObjectPath, symbol: &str) -> Self {
-        Triv { symbol: symbol.to_string() }
+/// One distinguishable piece of software per registered type: `Triv<K>` is what the registry entry for
+/// `NAMES[K]` produces, so the read-out shows WHICH registered factory built a node (not merely which symbol
+/// the builder asked for).
+const NAMES: [&str; 48] = [
+    "M0", "M1", "M2", "M3", "M4", "M5", "M6", "M7", "M8", "M9", "M10", "M11", "M12", "M13", "M14", "M15", "M16", "M17",
+    "M18", "M19", "M20", "M21", "M22", "M23", "M24", "M25", "M26", "M27", "M28", "M29", "M30", "M31", "T0", "T1", "T2",
+    "T3", "T4", "T5", "T6", "T7", "m0", "m1", "m2", "m3", "m4", "m5", "m6", "m7",
+];
+struct Triv<const K: usize>;
+impl<const K: usize> Module for Triv<K> {}
+impl<const K: usize> RegistryCreatable for Triv<K> {
+    fn create(_path: &ObjectPath, _symbol: &str) -> Self {
+        Triv
     }
 }
 
 macro_rules! registry_of {
-    ($($n:literal),*) => {
-        Registry::new()$(.symbol::<Triv>($n))*
+    ($($k:literal),*) => {
+        Registry::new()$(.symbol::<Triv<$k>>(NAMES[$k]))*
     };
+}
+macro_rules! software_of {
+    ($m:expr, $($k:literal),*) => {{
+        let mut found: Option<&'static str> = None;
+        $( if $m.try_as_ref::<Triv<$k>>().is_some() { found = Some(NAMES[$k]); } )*
+        found
+    }};
 }
 
 fn ident_like(s: &str) -> bool {
@@ -466,9 +479,8 @@ fn run_build(def: &Def) -> Vec<u64> {
     let r = catch_unwind(AssertUnwindSafe(|| {
         let mut sim = Sim::new(());
         let mut reg = registry_of!(
-            "M0", "M1", "M2", "M3", "M4", "M5", "M6", "M7", "M8", "M9", "M10", "M11", "M12", "M13", "M14", "M15",
-            "M16", "M17", "M18", "M19", "M20", "M21", "M22", "M23", "M24", "M25", "M26", "M27", "M28", "M29", "M30",
-            "M31", "T0", "T1", "T2", "T3", "T4", "T5", "T6", "T7"
+            0, 1, 2, 3, 4, 5, 6, 7, 8, 9, 10, 11, 12, 13, 14, 15, 16, 17, 18, 19, 20, 21, 22, 23, 24, 25, 26, 27, 28, 29, 30, 31,
+            32, 33, 34, 35, 36, 37, 38, 39, 40, 41, 42, 43, 44, 45, 46, 47
         );
         if let Err(e) = sim.nodes_from_ndl(def, &mut reg) {
             return vec![2, kind_number(&e.kind)];
@@ -481,8 +493,11 @@ fn run_build(def: &Def) -> Vec<u64> {
             let m = sim.globals().get(p).expect("listed node exists");
             let mut v = Vec::new();
             ser_path(&mut v, p.as_str());
-            let symbol = m.try_as_ref::<Triv>().map_or("?".to_string(), |t| t.symbol.clone());
-            lp(&mut v, &symbol);
+            let software = software_of!(
+                m, 0, 1, 2, 3, 4, 5, 6, 7, 8, 9, 10, 11, 12, 13, 14, 15, 16, 17, 18, 19, 20, 21, 22, 23, 24, 25, 26, 27, 28, 29, 30,
+                31, 32, 33, 34, 35, 36, 37, 38, 39, 40, 41, 42, 43, 44, 45, 46, 47
+            );
+            lp(&mut v, software.unwrap_or("?"));
             let mut gs = Vec::new();
             for g in m.gates() {
                 let mut gv = Vec::new();
